@@ -17,6 +17,10 @@ TRUSTED = [
     "C-impl: object.Commit.IsAncestor/MergeBase, object.Independents, git.VerifIsFastForward (verif_export_c42.go, -tags verif) vs Model/MergeBase on every case",
     "C-git: Spec/Dag is_anc/merge_bases/independent vs git merge-base --is-ancestor/--all/--independent on DAGs materialised with git fast-import (every case)",
 ]
+LEVEL_NOTE = ("trusted: Coq 8.16.1 kernel; the correspondence harness (generators, Go glue, canonicalisers); theorems are about "
+              "Model/MergeBase.v + Model/CommitWalk.v (executable models of merge_base.go / remote.go isFastForward and the iterators "
+              "they use), for ALL finite DAGs and ALL committer timestamps; tied to the Go code by differential execution on every "
+              "case and to git merge-base by the oracle; object decoding/storage not modelled")
 ASSUMPTIONS = ["commit graphs are finite DAGs (nodes numbered topologically in the model; the numbering is only a naming)",
                "sort.Slice on <= 12 elements is Go's insertion sort (stable); candidate lists in generated cases stay <= 12"]
 RULE = ("case = DAG (shape in {chain, diamond, criss-cross, octopus, forest, random} x timestamps in {monotone, equal, ties, "
